@@ -21,7 +21,7 @@ MIN_DECIDING = {"dr_runs_judged": 100, "previous_path_checked": 150, "followup_c
 
 
 def budget(tier):
-    return {"cases": 2400, "seconds": 55} if tier == "quick" else {"cases": 150000, "seconds": 600}
+    return {"cases": 1800, "seconds": 55} if tier == "quick" else {"cases": 150000, "seconds": 600}
 
 
 def _apply_renames(rng, root, files, dirs, n, tag):
@@ -60,7 +60,7 @@ def run_case(cs):
     rng = cs.rng
     tree = world.gen_tree(rng, max_files=8, max_dirs=rng.choice([0, 2, 4]), min_files=2, classes=["plain", "plain", "space", "uni", "punct"], distinct=True)
     d = cs.dir()
-    root = os.path.join(d, "R")
+    root = os.path.join(d, world.root_name(rng))
     world.write_tree(root, tree)
     steps = []
     prior = rng.randint(1, 3)
@@ -133,8 +133,24 @@ def run_case(cs):
         return
     eff = dict(ren)  # original path -> current path
     # ---- optional second step in a later generation
-    second = rng.choice(["none", "none", "chain", "back"])
-    if second != "none":
+    second = rng.choice(["none", "none", "chain", "back", "long"])
+    if second == "long":
+        # the same file renamed again and again in successive generations: a->b->c->d..., or back and forth
+        a = rng.choice(sorted(ren))
+        names = [a, ren[a]]
+        pingpong = rng.random() < 0.5
+        for hop in range(rng.randint(2, 3)):
+            cur = names[-1]
+            nxt = names[-2] if pingpong else os.path.join(os.path.dirname(cur), "r%d-" % (hop + 3) + world.gen_name(rng, "plain"))
+            if os.path.exists(os.path.join(root, nxt)):
+                break
+            os.rename(os.path.join(root, cur), os.path.join(root, nxt))
+            names.append(nxt)
+            eff[a] = nxt
+            steps.append(f"rename hop {cur!r} -> {nxt!r}")
+            if not _dr_step(cs, root, fm2, {cur: nxt}, {"steps": steps, "renames": {cur: nxt}, "classes": ["long-pingpong" if pingpong else "long-chain"]}, steps, rel_fmt, {"long-pingpong" if pingpong else "long-chain"}, prior, "chain"):
+                return
+    elif second != "none":
         cur_files = sorted(ren.values())
         pick = rng.sample(cur_files, min(len(cur_files), rng.randint(1, 2)))
         ren2 = {}
